@@ -49,7 +49,26 @@ TESTS = {
     ("axds", "valid_range_test"): [{"valid_span": [0, 100]}, {"valid_span": [0, 100], "start_inclusive": False, "end_inclusive": True}],
 }
 UNKNOWN = [("nosuch", "foo_test", {"a": 1}), ("qartod", "definitely_not_a_test", {"b": [1, 2]}), ("argo", "spike_test", {"suspect_threshold": 1})]
+_LONG = [[-93.123456, 22.5], [-93.123456, 32.25], [-90.5, 33.0], [-88.25, 32.75], [-86.0, 32.5], [-84.0625, 32.0], [-84.0625, 22.5], [-86.5, 21.75], [-90.0, 21.5], [-93.123456, 22.5]]
 REGIONS = {
+    # optional GeoJSON "id" members: equal ids, null ids, ids equal to list positions -- every feature still counts
+    "features-ids": {"type": "FeatureCollection", "features": [
+        {"type": "Feature", "id": "a", "geometry": {"type": "Point", "coordinates": [-72.5, 41.25]}},
+        {"type": "Feature", "id": "a", "geometry": {"type": "Point", "coordinates": [-70.0, 40.0]}},
+        {"type": "Feature", "id": None, "geometry": {"type": "Polygon", "coordinates": [[[0, 0], [0, 5], [5, 5], [0, 0]]]}},
+        {"type": "Feature", "id": None, "geometry": {"type": "Point", "coordinates": [1.5, 2.5]}},
+        {"type": "Feature", "geometry": {"type": "Point", "coordinates": [9.0, 9.0]}},
+        {"type": "Feature", "id": 4, "geometry": {"type": "Point", "coordinates": [8.0, 8.0]}}]},
+    # look-alike regions: same long first geometry, differing only in a later feature / a late vertex / the 4th decimal
+    "long-a": {"type": "FeatureCollection", "features": [
+        {"type": "Feature", "geometry": {"type": "Polygon", "coordinates": [_LONG]}},
+        {"type": "Feature", "geometry": {"type": "Point", "coordinates": [-72.5, 41.25]}}]},
+    "long-b": {"type": "FeatureCollection", "features": [
+        {"type": "Feature", "geometry": {"type": "Polygon", "coordinates": [_LONG]}},
+        {"type": "Feature", "geometry": {"type": "Point", "coordinates": [-60.0, 10.0]}}]},
+    "long-c": {"type": "Feature", "geometry": {"type": "Polygon", "coordinates": [_LONG[:-3] + [[-90.0, 21.25], _LONG[0]]]}},
+    "long-d": {"type": "Feature", "geometry": {"type": "Polygon", "coordinates": [[[p[0] + 0.0004, p[1]] for p in _LONG[:-1]] + [[_LONG[0][0] + 0.0004, _LONG[0][1]]]]}},
+    "long-e": {"type": "Feature", "geometry": {"type": "Polygon", "coordinates": [_LONG]}},
     "geometry": {"type": "Feature", "geometry": {"type": "Polygon", "coordinates": [[[-93, 22], [-93, 32], [-84, 32], [-84, 22], [-93, 22]]]}},
     "features": {"type": "FeatureCollection", "features": [
         {"type": "Feature", "geometry": {"type": "Point", "coordinates": [-72.5, 41.25]}},
@@ -75,8 +94,17 @@ def gen_tree(rng):
             if w not in used_windows:
                 used_windows.add(w)
                 c["window"] = w
-        if rng.random() < 0.3:
+        if rng.random() < 0.4:
             c["region"] = rng.choice(sorted(REGIONS))
+        if ctxs and rng.random() < 0.35:
+            # same window as an earlier context, different (possibly look-alike) region
+            prev = rng.choice(ctxs)
+            if "window" in prev:
+                c["window"] = prev["window"]
+            else:
+                c.pop("window", None)
+            others = [r for r in sorted(REGIONS) if r != prev.get("region")]
+            c["region"] = rng.choice([r for r in others if r.startswith("long")] or others)
         for s in rng.sample(["temp", "salinity", "pressure", "v-1", "o2", "chl_a"], rng.choice([1, 1, 2, 3, 5])):
             keys = rng.sample(sorted(TESTS), rng.choice([1, 1, 2, 3, 5]))
             c["streams"][s] = [(m, t, rng.choice(TESTS[(m, t)])) for m, t in keys]
